@@ -12,10 +12,12 @@ func init() {
 		ID:    "C13",
 		Title: "trust stores load only valid certificates from real files of the named store",
 		Run:   runC13,
-		Explain: "For the GetCertificates method of the type implementing X509TrustStore: (a) gates on every success exit — known store type (validator true only for an element of Types), certified file-name validator on the store name, SysPath error, " +
-			"os.Lstat (not Stat) error, directory and not symlink, ReadDir error, non-empty result; per directory entry (every completed iteration) — not a directory and not a symlink judged on the entry itself (DirEntry or Lstat, never a symlink-following Stat), " +
-			"read error, at least one certificate, every certificate CA or self-signed (loop over all certificates with the disjunctive gate), and for tsa stores every certificate a self-signed root; " +
-			"(b) exact set: the returned slice is appended only from ReadCertificateFile(Join(store path, entry.Name())) with store path = SysPath(X509TrustStoreDir(type, name)) and layout truststore/x509; " +
+		Explain: "For the GetCertificates method of the type implementing X509TrustStore, decided in that method's frame over the static call tree under it (values of helpers are translated by substituting parameters and captured variables by what the call chain binds them to): " +
+			"(a) gates on every success exit — known store type (validator true only for an element of Types), certified file-name validator on the store name, SysPath error, " +
+			"os.Lstat (not Stat) error on the path that is listed, directory and not symlink, ReadDir error, non-empty result (the returned slice is tested, or the listing is tested and every completed iteration appends at least one certificate); " +
+			"per directory entry (every completed iteration; an abandoned iteration cannot reach success) — not a directory and not a symlink judged on the entry itself (DirEntry or Lstat, never a symlink-following Stat), " +
+			"read error, at least one certificate, every certificate CA or self-signed (a loop over all certificates with the disjunctive gate, inline or behind helpers whose success requires it), and for tsa stores every certificate a self-signed root; " +
+			"(b) exact set: the returned slice starts empty and is appended only from ReadCertificateFile(Join(store path, entry.Name())) with store path = SysPath(X509TrustStoreDir(type, name)) = the directory listed, layout truststore/x509; every helper between hands back what it read; " +
 			"(c) every failing exit returns a nil slice; no failing edge continues the loop.",
 		NotCov:  "certificate parsing (notation-core-go ReadCertificateFile, crypto/x509); special files other than directories and symlinks.",
 		Trusted: []string{"go/types, go/ssa", "os.Lstat / os.ReadDir / fs.DirEntry semantics", "notation-core-go x509.ReadCertificateFile", "crypto/x509 CheckSignature"},
@@ -36,116 +38,130 @@ func runC13(c *Ctx) {
 	}
 	c.SeenFn(G.String())
 	m := Mode{Kind: mErr}
+	// the two inputs, by their position in the exported interface method
 	gTypeP, gNameP := "param:"+G.Params[2].Name(), "param:"+G.Params[3].Name()
-	sG := w.Summarize(G, m)
-	c.Evals += sG.States
-	// LF: the function that lists the directory (G itself, or a module callee whose success every success exit of G requires)
-	LF := G
-	typeP, nameP := gTypeP, gNameP
-	if len(findCalls(G, "os.ReadDir")) == 0 {
-		var lc *ssa.Call
-		for _, ci := range allCalls(G) {
-			call, ok := ci.(*ssa.Call)
-			if !ok {
-				continue
-			}
-			g := staticCallee(call)
-			if g != nil && g.Blocks != nil && w.IsProductFn(g) && len(findCalls(g, "os.ReadDir")) > 0 {
-				lc = call
-			}
-		}
-		if lc == nil {
-			c.Bad("anchor/readdir", "the store directory is listed with os.ReadDir", w.FnPos(G), "os.ReadDir is not called by GetCertificates or a direct helper")
-			return
-		}
-		LF = staticCallee(lc)
-		c.SeenFn(LF.String())
-		okVia := len(sG.Exits) > 0
-		detail := ""
-		for _, ex := range sG.Exits {
-			via := labelHas(ex.Checked, "EQ("+descTailErr(lc)+",nil)") || ex.Tail == calleeName(lc)
-			r0 := ex.Ret.Results[0]
-			fromLoader := false
-			if e, ok := r0.(*ssa.Extract); ok && e.Tuple == lc && e.Index == 0 {
-				fromLoader = true
-			}
-			if call := callOf(r0); call != nil {
-				if bi, ok := call.Call.Value.(*ssa.Builtin); ok && bi.Name() == "append" && isNilConst(call.Call.Args[0]) {
-					if e, ok := call.Call.Args[1].(*ssa.Extract); ok && e.Tuple == lc && e.Index == 0 {
-						fromLoader = true
-					}
+	// Everything below is written in the frame of GetCertificates; anchor calls are looked for in the call tree under it and
+	// their operands are translated to that frame (extra_c13.go).
+	_, all := c13Tree(w, G)
+
+	// the listing of the directory, and the loop over what was listed (AF: the function that holds that loop and accumulates the result)
+	rds := c13Sites(all, "os.ReadDir")
+	if len(rds) == 0 {
+		c.Bad("anchor/readdir", "the store directory is listed with os.ReadDir", w.FnPos(G), "os.ReadDir is not called by GetCertificates or by a helper under it")
+		return
+	}
+	rd := rds[0]
+	var afI *c13Inst
+	var loop *loopRef
+	for _, r := range rds {
+		ed := "call:os.ReadDir(" + r.in.toG(desc(r.call.Call.Args[0])) + ")#0"
+		for _, in := range all {
+			for _, l := range allLoops(in.fn) {
+				l := l
+				if loop == nil && in.toG(desc(l.X)) == ed {
+					rd, afI, loop = r, in, &l
 				}
 			}
-			if ex.Tail == calleeName(lc) {
-				fromLoader = true
+		}
+	}
+	if afI == nil {
+		afI = rd.in // no loop: the gates are still reported for the function that lists
+	}
+	pathD := rd.in.toG(desc(rd.call.Call.Args[0]))
+	entriesD := "call:os.ReadDir(" + pathD + ")#0"
+	chain := afI.path()
+	var levels []*c13Level
+	for _, in := range chain {
+		c.SeenFn(in.fn.String())
+		levels = append(levels, c13LevelOf(c, in))
+	}
+	AF := afI.fn
+	fi := w.Info(AF)
+	site := w.FnPos(AF)
+	s := levels[len(levels)-1].sum
+	// has: a fact of every success exit of some function of the chain (see c13Level for why any level will do)
+	has := func(subs ...string) bool {
+		for _, lv := range levels {
+			if lv.has(subs...) {
+				return true
 			}
-			if !via || !fromLoader {
-				okVia = false
-				detail = "exit " + w.InstrPos(ex.Ret) + " returns " + desc(r0) + " without loading the store from the file system"
+		}
+		return false
+	}
+	every := func(pred func(m map[string]string) bool) bool {
+		for _, lv := range levels {
+			if lv.every(pred) {
+				return true
+			}
+		}
+		return false
+	}
+	if len(chain) > 1 {
+		// each link of the chain: the caller succeeds only if the callee did, and hands back what the callee returned
+		okVia, detail := true, ""
+		for i := 0; i+1 < len(chain); i++ {
+			lc := chain[i+1].call
+			sP := levels[i].sum
+			if len(sP.Exits) == 0 {
+				okVia, detail = false, "no success exit in "+fnName(chain[i].fn)
+			}
+			for _, ex := range sP.Exits {
+				via := labelHas(ex.Checked, "EQ("+descTailErr(lc)+",nil)") || ex.Tail == calleeName(lc)
+				r0 := ex.Ret.Results[0]
+				fromLoader := false
+				if e, ok := r0.(*ssa.Extract); ok && e.Tuple == lc && e.Index == 0 {
+					fromLoader = true
+				}
+				if call := callOf(r0); call != nil {
+					if bi, ok := call.Call.Value.(*ssa.Builtin); ok && bi.Name() == "append" && isNilConst(call.Call.Args[0]) {
+						if e, ok := call.Call.Args[1].(*ssa.Extract); ok && e.Tuple == lc && e.Index == 0 {
+							fromLoader = true
+						}
+					}
+				}
+				if ex.Tail == calleeName(lc) {
+					fromLoader = true
+				}
+				if !via || !fromLoader {
+					okVia = false
+					detail = "exit " + w.InstrPos(ex.Ret) + " returns " + trunc(desc(r0), 300) + " without loading the store from the file system"
+				}
 			}
 		}
 		c.Check(okVia, "exact-set/returned-from-loader", "every success exit of GetCertificates returns what the directory loader just read for this type and name (nothing cached or shared between stores)", w.FnPos(G), detail)
-		for i, a := range lc.Call.Args {
-			switch desc(a) {
-			case gTypeP:
-				typeP = "param:" + LF.Params[i].Name()
-			case gNameP:
-				nameP = "param:" + LF.Params[i].Name()
-			}
-		}
 	}
-	fi := w.Info(LF)
-	site := w.FnPos(LF)
-	s := w.Summarize(LF, m)
-	c.Evals += s.States
-	hasIn := func(sum *Summary, subs ...string) bool {
-		if len(sum.Exits) == 0 {
-			return false
-		}
-		for _, ex := range sum.Exits {
-			if _, ok := hasLabel(ex.Checked, subs...); !ok {
-				return false
-			}
-		}
-		return true
-	}
-	has := func(subs ...string) bool { return hasIn(s, subs...) }
 	// store type
-	okType := hasIn(sG, "T(call:slices.Contains(global:ngo/verifier/truststore.Types,"+gTypeP+"))") || has("T(call:slices.Contains(global:ngo/verifier/truststore.Types,"+typeP+"))")
-	c.slot(okType, 1, "gate/known-type", "the store type is an element of truststore.Types", site, "an unknown store type is loaded")
-	// store name: certified validator
-	var nameFn *ssa.Function
-	for _, ci := range allCalls(G) {
-		if call, ok := ci.(*ssa.Call); ok && hasIn(sG, "T("+desc(call)+")") && len(call.Call.Args) == 1 && desc(call.Call.Args[0]) == gNameP {
-			nameFn = staticCallee(call)
+	c.slot(has("T(call:slices.Contains(global:ngo/verifier/truststore.Types,"+gTypeP+"))"), 1, "gate/known-type", "the store type is an element of truststore.Types", site, "an unknown store type is loaded")
+	// store name: a certified validator, called on the name anywhere under GetCertificates, whose `true` answer every success exit passed
+	okName, why := false, "the store name is not validated"
+	for _, in := range all {
+		for _, ci := range allCalls(in.fn) {
+			call, ok := ci.(*ssa.Call)
+			if !ok || okName || len(call.Call.Args) != 1 || in.toG(desc(call.Call.Args[0])) != gNameP || !has("T("+in.toG(desc(call))+")") {
+				continue
+			}
+			if g := staticCallee(call); g != nil {
+				okName, why = certifyFileNameValidator(w, g)
+			}
 		}
-	}
-	for _, ci := range allCalls(LF) {
-		if call, ok := ci.(*ssa.Call); ok && has("T("+desc(call)+")") && len(call.Call.Args) == 1 && desc(call.Call.Args[0]) == nameP {
-			nameFn = staticCallee(call)
-		}
-	}
-	okName := false
-	why := "the store name is not validated"
-	if nameFn != nil {
-		okName, why = certifyFileNameValidator(w, nameFn)
 	}
 	c.slot(okName, 1, "gate/safe-name", "the store name passes a certified single-component file-name validator (no separator, NUL, empty, '.' or '..')", site, why)
-	// path
-	var sys *ssa.Call
-	G = LF // from here on the directory loader is analysed
-	for _, ci := range allCalls(G) {
-		if call, ok := ci.(*ssa.Call); ok && calleeName(call) == "invoke:ngo/dir.SysFS.SysPath" {
-			sys = call
+	// path: the directory that is listed is what SysPath returned for the layout of this type and name
+	var sys *c13Site
+	for _, st := range c13Sites(all, "invoke:ngo/dir.SysFS.SysPath") {
+		st := st
+		if st.in.toG(desc(st.call))+"#0" == pathD {
+			sys = &st
 		}
 	}
 	if sys == nil {
-		c.Bad("path/syspath", "the store path is obtained from the trust store file system", site, "SysPath is not called")
+		c.Bad("path/syspath", "the store path is obtained from the trust store file system", site, "the directory listed is "+trunc(pathD, 200)+", which is not the result of SysPath")
 		return
 	}
-	pathD := desc(sys) + "#0"
-	wantArg := "{call:ngo/dir.X509TrustStoreDir({" + typeP + "," + nameP + "})}"
-	c.Check(desc(sys.Call.Args[0]) == wantArg, "path/layout-arguments", "the store path is SysPath(X509TrustStoreDir(string(type), name))", w.InstrPos(sys), "SysPath receives "+desc(sys.Call.Args[0]))
+	sysD := sys.in.toG(desc(sys.call))
+	sysArg := sys.in.toG(desc(sys.call.Call.Args[0]))
+	wantArg := "{call:ngo/dir.X509TrustStoreDir({" + gTypeP + "," + gNameP + "})}"
+	c.Check(sysArg == wantArg, "path/layout-arguments", "the store path is SysPath(X509TrustStoreDir(string(type), name))", w.InstrPos(sys.call), "SysPath receives "+sysArg)
 	if lay := w.Func("dir", "X509TrustStoreDir"); lay != nil {
 		c.SeenFn(lay.String())
 		okLay := false
@@ -160,40 +176,20 @@ func runC13(c *Ctx) {
 		}
 		c.Check(okLay, "path/layout", "layout: truststore/x509/<type>/<name> (constant prefix followed by the items in order)", w.FnPos(lay), "the layout function joins something else")
 	}
-	c.slot(has("EQ("+desc(sys)+"#err,nil)"), 1, "gate/syspath-error", "SysPath err == nil", site, "")
+	c.slot(has("EQ("+sysD+"#err,nil)"), 1, "gate/syspath-error", "SysPath err == nil", site, "")
 	c.slot(has("EQ(call:os.Lstat("+pathD+")#err,nil)"), 1, "gate/lstat", "os.Lstat(store path) err == nil (Lstat: a symlinked store directory is seen as a symlink)", site, "the store directory is not examined with Lstat")
 	{
-		// the mode of the Lstat result: directory bit set, symlink bit clear (predicate or bit-mask form), on every success exit
-		isDir, notSym := len(s.Exits) > 0, len(s.Exits) > 0
-		for _, ex := range s.Exits {
-			d, sy, _ := modeBits(ex.Checked, "call:invoke:os.FileInfo.Mode(call:os.Lstat(")
-			if d != 1 {
-				isDir = false
-			}
-			// a value known to be a directory by the mode-type bits cannot be a symlink only if the symlink bit is tested
-			if sy != -1 {
-				notSym = false
-			}
-		}
+		// the mode of the Lstat result of the store path: directory bit set, symlink bit clear (predicate or bit-mask form), on every success exit
+		pfx := "call:invoke:os.FileInfo.Mode(call:os.Lstat(" + pathD + ")#0)"
+		isDir := every(func(m map[string]string) bool { d, _, _ := modeBits(m, pfx); return d == 1 })
+		// a value known to be a directory by the mode-type bits cannot be a symlink only if the symlink bit is tested
+		notSym := every(func(m map[string]string) bool { _, sy, _ := modeBits(m, pfx); return sy == -1 })
 		c.slot(isDir, 1, "gate/is-directory", "the store path is a directory", site, "")
 		c.slot(notSym, 1, "gate/not-symlink", "the store path is not a symlink", site, "")
 	}
 	c.slot(has("EQ(call:os.ReadDir("+pathD+")#err,nil)"), 1, "gate/readdir", "os.ReadDir(store path) err == nil", site, "")
-	nonEmpty := false
-	for _, ex := range s.Exits {
-		for l := range ex.Checked {
-			if (strings.HasPrefix(l, "GE(len(") && strings.HasSuffix(l, "),const:1)")) || (strings.HasPrefix(l, "GT(len(") && strings.HasSuffix(l, "),const:0)")) || (strings.HasPrefix(l, "NE(len(") && strings.HasSuffix(l, "),const:0)")) {
-				if strings.Contains(l, "ReadCertificateFile") || strings.Contains(l, "append") {
-					nonEmpty = true
-				}
-			}
-		}
-	}
-	c.slot(nonEmpty, 1, "gate/non-empty", "an empty result is an error", site, "an empty store loads successfully")
 
 	// entries loop
-	entriesD := "call:os.ReadDir(" + pathD + ")#0"
-	loop := findLoop(G, func(d string) bool { return d == entriesD })
 	if loop == nil {
 		c.Bad("entry/loop", "every directory entry is examined", site, "no loop over the ReadDir result")
 		return
@@ -205,53 +201,23 @@ func runC13(c *Ctx) {
 		wit := fi.successWitness(m, entryState(), cut)
 		c.slot(wit == nil, 1, "entry/loop", "every directory entry is examined before success", lsite, "the loop can be bypassed", wit...)
 	}
+	{
+		// The per-entry rules below are facts of every COMPLETED iteration. An iteration that is abandoned (break, goto, a
+		// return from inside the loop) escapes them, so it must not be able to reach a success exit: with the back edges removed,
+		// no success exit is reachable from the loop body. (`break` on a failed entry followed by `if err != nil { return nil, err }`
+		// passes: the engine knows the error local is non-nil on that path.)
+		wit := fi.successWitness(m, []state{{loop.Body.Index, 0, -1}}, backEdges(loop.Header))
+		c.slot(wit == nil, 1, "entry/no-early-success", "an entry whose iteration is not completed (break / return inside the loop) never leads to success", lsite, "the loop can be left early on a path that still succeeds (partial set)", wit...)
+	}
+	// the facts of one completed iteration (composed through the helpers the iteration calls), in the root frame
 	ent := entriesD + "["
-	labels, _ := fi.mustPassBetween([]int{loop.Body.Index}, map[int]bool{loop.Header.Index: true})
-	sc := &c13Scope{fn: G, fi: fi, loop: loop, labels: labels}
-	typeX, pathX := typeP, pathD
-	// the certificates one entry contributes, as the loader sees them
-	var entryCall *ssa.Call
-	if len(findCalls(G, "core/x509.ReadCertificateFile")) == 0 {
-		// the entry is handed to an unexported helper that reads the file; the iteration completes only if it succeeds
-		for _, ci := range allCalls(G) {
-			call, ok := ci.(*ssa.Call)
-			if !ok || !loopBlocks(loop.Header)[call.Block().Index] {
-				continue
-			}
-			g := staticCallee(call)
-			if g == nil || g.Blocks == nil || !w.IsProductFn(g) || len(findCalls(g, "core/x509.ReadCertificateFile")) == 0 || len(g.Params) != len(call.Call.Args) {
-				continue
-			}
-			if !labelHas(labels, "EQ("+descTailErr(call)+",nil)") {
-				continue
-			}
-			entryCall = call
-			entX := ""
-			typeX, pathX = "", ""
-			for k, a := range call.Call.Args {
-				pd := "param:" + g.Params[k].Name()
-				switch d := desc(a); {
-				case d == typeP:
-					typeX = pd
-				case d == pathD:
-					pathX = pd
-				case strings.HasPrefix(d, ent):
-					entX = pd
-				}
-			}
-			sg := w.Summarize(g, m)
-			c.Evals += sg.States
-			c.SeenFn(g.String())
-			sc = &c13Scope{fn: g, fi: w.Info(g), labels: sg.Checked}
-			ent = entX
-			if entX == "" || pathX == "" {
-				c.Bad("entry/helper", "the per-entry helper receives the directory entry and the store path", w.InstrPos(call), "arguments: "+desc(call))
-				return
-			}
+	labels := map[string]string{}
+	{
+		raw, _ := fi.mustPassBetween([]int{loop.Body.Index}, map[int]bool{loop.Header.Index: true})
+		for l, st := range raw {
+			labels[afI.toG(l)] = st
 		}
 	}
-	labels = sc.labels
-	lsite = sc.site(w)
 	hasIt := func(subs ...string) bool { _, ok := hasLabel(labels, subs...); return ok }
 	// regular file judged on the entry itself
 	formA := hasIt("F(call:invoke:os.DirEntry.IsDir("+ent) && hasIt("EQ((call:invoke:os.DirEntry.Type("+ent, "& const:134217728),const:0)")
@@ -267,29 +233,41 @@ func runC13(c *Ctx) {
 	if hasIt("F(call:invoke:io/fs.DirEntry.IsDir("+ent) && hasIt("EQ((call:invoke:io/fs.DirEntry.Type("+ent, "& const:134217728),const:0)") {
 		formA = true
 	}
+	if hasIt("T(call:(io/fs.FileMode).IsRegular(call:invoke:io/fs.DirEntry.Type(" + ent) {
+		formB = true
+	}
 	c.slot(formA || formB || formC, 1, "entry/regular-file", "per entry: not a directory and not a symlink, judged on the entry itself (DirEntry type or Lstat; a symlink-following Stat does not count)", lsite,
 		"a sub-directory or a symlink to a certificate file is accepted; per-iteration facts: "+summarizeLabels(labels, 8))
-	// read
-	var read *ssa.Call
-	for _, ci := range allCalls(sc.fn) {
-		if call, ok := ci.(*ssa.Call); ok && calleeName(call) == "core/x509.ReadCertificateFile" {
-			read = call
+	// read: the ReadCertificateFile call under AF whose success every completed iteration requires
+	var read *c13Site
+	for _, st := range c13Sites(all, "core/x509.ReadCertificateFile") {
+		st := st
+		if !st.in.under(afI) {
+			continue
+		}
+		if read == nil {
+			read = &st
+		}
+		if labelHas(labels, "EQ("+st.in.toG(desc(st.call))+"#err,nil)") {
+			read = &st
+			break
 		}
 	}
 	if read == nil {
 		c.Bad("entry/read", "per entry: the certificates are read with ReadCertificateFile", lsite, "not called")
 		return
 	}
-	rd := desc(read)
-	c.slot(hasIt("EQ("+rd+"#err,nil)"), 1, "entry/read-error", "per entry: read error fail-closed", lsite, "")
+	rdD := read.in.toG(desc(read.call))
+	c.slot(hasIt("EQ("+rdD+"#err,nil)"), 1, "entry/read-error", "per entry: read error fail-closed", lsite, "")
 	okPath := false
+	readArg := read.in.toG(desc(read.call.Call.Args[0]))
 	for _, dn := range []string{"os.DirEntry", "io/fs.DirEntry"} {
-		if strings.HasPrefix(desc(read.Call.Args[0]), "call:path/filepath.Join({"+pathX+",call:invoke:"+dn+".Name("+ent) {
+		if strings.HasPrefix(readArg, "call:path/filepath.Join({"+pathD+",call:invoke:"+dn+".Name("+ent) {
 			okPath = true
 		}
 	}
-	c.Check(okPath, "exact-set/file-path", "the file read is Join(store path, entry.Name()) of this entry", w.InstrPos(read), "ReadCertificateFile receives "+desc(read.Call.Args[0]))
-	certs := rd + "#0"
+	c.Check(okPath, "exact-set/file-path", "the file read is Join(store path, entry.Name()) of this entry", w.InstrPos(read.call), "ReadCertificateFile receives "+trunc(readArg, 400))
+	certs := rdD + "#0"
 	// at least one certificate per file
 	okLen := false
 	for l := range labels {
@@ -299,10 +277,18 @@ func runC13(c *Ctx) {
 	}
 	c.slot(okLen, 1, "entry/at-least-one-certificate", "per entry: the file holds at least one certificate", lsite, "an empty file is skipped silently")
 	// every certificate CA or self-signed
-	okCA, caSite := c13CertLoop(c, sc, certs, func(el string) EdgeSel {
-		return matchOf(pre("T("+el, ".IsCA)"), pre("EQ(call:(*crypto/x509.Certificate).CheckSignature("+strings.TrimSuffix(el, "["), "#err,nil)"))
-	}, 2)
-	c.slot(okCA, 1, "entry/ca-or-self-signed", "per entry: every certificate of the file is a CA certificate or self-signed (disjunctive gate inside a loop over all certificates, not bypassable)", caSite, "a leaf certificate that is not self-signed is accepted")
+	{
+		u := &c13Univ{c: c, certsG: certs, minEdges: 2, memo: map[*c13Inst]map[edgeKey]bool{}, tails: map[*c13Inst]map[*ssa.Call]bool{}, busy: map[*c13Inst]bool{},
+			gate: func(_ *c13Inst, el string) EdgeSel {
+				return matchOf(pre("T("+el, ".IsCA)"), pre("EQ(call:(*crypto/x509.Certificate).CheckSignature("+strings.TrimSuffix(el, "["), "#err,nil)"))
+			}}
+		okCA := u.iteration(afI, loop)
+		caSite := lsite
+		if u.site != "" {
+			caSite = u.site
+		}
+		c.slot(okCA, 1, "entry/ca-or-self-signed", "per entry: every certificate of the file is a CA certificate or self-signed (disjunctive gate inside a loop over all certificates, not bypassable)", caSite, "a leaf certificate that is not self-signed is accepted")
+	}
 	// tsa: every certificate a self-signed root
 	tsaC, _ := w.constString("verifier/truststore", "TypeTSA")
 	var rootFn string
@@ -312,207 +298,144 @@ func runC13(c *Ctx) {
 			c13Root(c, fn)
 		}
 	}
-	okTSA := false
-	tsaSite := lsite
-	if rootFn != "" && typeX != "" {
-		// under type == tsa the entry completes only through a loop over all certificates gated by the root check
-		notTSA := matchOf(pre("NE(" + typeX + fmt.Sprintf(",const:%q)", tsaC)))
-		var inner *loopRef
-		for _, l := range allLoops(sc.fn) {
-			l := l
-			if desc(l.X) == certs && sc.contains(l.Header) {
-				il, _ := sc.fi.mustPassBetween([]int{l.Body.Index}, map[int]bool{l.Header.Index: true})
-				if _, h := hasLabel(il, "EQ(call:"+rootFn+"("+certs+"[", "#err,nil)"); h {
-					inner = &l
-				}
+	{
+		okTSA, tsaSite := false, lsite
+		if rootFn != "" {
+			never := func(string, *ssa.If, bool) bool { return false }
+			u := &c13Univ{c: c, certsG: certs, minEdges: 1, memo: map[*c13Inst]map[edgeKey]bool{}, tails: map[*c13Inst]map[*ssa.Call]bool{}, busy: map[*c13Inst]bool{},
+				gate: func(_ *c13Inst, el string) EdgeSel {
+					return matchOf(pre("EQ(call:"+rootFn+"("+el, "#err,nil)"))
+				},
+				// the clause binds tsa stores only: an edge on which the store type (the root's type parameter, as this function sees it) differs from the tsa constant
+				// (or on which a boolean parameter that the call chain binds to `type == tsa` is false)
+				cond: func(in *c13Inst) EdgeSel {
+					var ps []func(string) bool
+					if t := in.local(gTypeP); t != "" {
+						ps = append(ps, pre("NE("+t+fmt.Sprintf(",const:%q)", tsaC)))
+					}
+					if b := in.local("(" + gTypeP + fmt.Sprintf(" == const:%q)", tsaC)); b != "" && in.parent != nil {
+						ps = append(ps, pre("F("+b+")"))
+					}
+					if len(ps) == 0 {
+						return never
+					}
+					return matchOf(ps...)
+				}}
+			okTSA = u.iteration(afI, loop)
+			if u.site != "" {
+				tsaSite = u.site
 			}
 		}
-		if inner != nil {
-			cut := sc.fi.edgesMatching(notTSA)
-			cutInto(sc.fi, inner.Header, cut)
-			if sc.blocked(cut) {
-				okTSA = true
-				tsaSite = w.InstrPos(blockTerm(inner.Header))
-			}
-		}
+		c.slot(okTSA, 1, "entry/tsa-roots", "per entry of a tsa store: every certificate is a self-signed root", tsaSite, "a non-root certificate is accepted into a tsa store")
 	}
-	if !okTSA && rootFn != "" && typeX != "" {
-		// alternative shape: inside a non-bypassable loop over all certificates each iteration passes (type != tsa) or root(cert) err == nil
-		ok2, site2 := c13CertLoop(c, sc, certs, func(el string) EdgeSel {
-			return matchOf(pre("NE("+typeX+fmt.Sprintf(",const:%q)", tsaC)), pre("EQ(call:"+rootFn+"("+el, "#err,nil)"))
-		}, 2)
-		if ok2 {
-			okTSA, tsaSite = true, site2
-		}
-	}
-	c.slot(okTSA, 1, "entry/tsa-roots", "per entry of a tsa store: every certificate is a self-signed root", tsaSite, "a non-root certificate is accepted into a tsa store")
-	if entryCall != nil {
-		// what the helper hands back on success is what it read, and that is what the loader sees as this entry's certificates
+	// what a helper between the loop and the read hands back on success is what it read (or what the next helper handed back)
+	var entryCall *ssa.Call
+	if read.in != afI {
 		okBack := true
-		for _, ex := range w.Summarize(sc.fn, m).Exits {
-			if e, ok := ex.Ret.Results[0].(*ssa.Extract); !ok || e.Tuple != ssa.Value(read) || e.Index != 0 {
+		var inner ssa.Value = read.call
+		for h := read.in; h != afI; h = h.parent {
+			c.SeenFn(h.fn.String())
+			exits := w.Summarize(h.fn, m).Exits
+			if len(exits) == 0 {
 				okBack = false
 			}
-		}
-		c.Check(okBack, "exact-set/helper-returns-what-it-read", "the per-entry helper returns exactly the certificates it read from the entry's file", w.FnPos(sc.fn), "a success exit returns something else")
-		for _, r := range *entryCall.Referrers() {
-			if e, ok := r.(*ssa.Extract); ok && e.Index == 0 {
-				certs = desc(e)
+			for _, ex := range exits {
+				if len(ex.Ret.Results) == 0 {
+					okBack = false
+					continue
+				}
+				if e, ok := ex.Ret.Results[0].(*ssa.Extract); !ok || e.Tuple != inner || e.Index != 0 {
+					okBack = false
+				}
 			}
+			inner = h.call
 		}
+		entryCall, _ = inner.(*ssa.Call)
+		c.Check(okBack, "exact-set/helper-returns-what-it-read", "the per-entry helper returns exactly the certificates it read from the entry's file", w.FnPos(read.in.fn), "a success exit returns something else")
 	}
-	// (b) exact set
+	// (b) exact set: the value appended is the certificates of this entry (by rendering in the root frame, or the very result of the checked helper)
+	isCerts := func(v ssa.Value) bool {
+		if afI.toG(desc(v)) == certs {
+			return true
+		}
+		e, ok := v.(*ssa.Extract)
+		return ok && entryCall != nil && e.Tuple == ssa.Value(entryCall) && e.Index == 0
+	}
 	okApp, nApp := true, 0
-	for _, ci := range allCalls(G) {
+	for _, ci := range allCalls(AF) {
 		call, ok := ci.(*ssa.Call)
 		if !ok {
 			continue
 		}
 		if bi, ok := call.Call.Value.(*ssa.Builtin); ok && bi.Name() == "append" && strings.Contains(call.Type().String(), "x509.Certificate") {
 			nApp++
-			if desc(call.Call.Args[1]) != certs {
+			if !isCerts(call.Call.Args[1]) {
 				okApp = false
 			}
 		}
 	}
 	c.Check(okApp && nApp > 0, "exact-set/appended-only-from-files", "the result is appended only from the certificates read from this store's files", site, fmt.Sprintf("%d appends, foreign source=%v", nApp, !okApp))
-	okRet := len(s.Exits) > 0
+	// what a success exit returns is the accumulator: started empty, extended by those appends only
+	okRet, retWhy := len(s.Exits) > 0, "no success exit"
+	grows := len(s.Exits) > 0
 	for _, ex := range s.Exits {
-		d := desc(ex.Ret.Results[0])
-		if !strings.HasPrefix(d, "phi(call:builtin:append(") {
-			okRet = false
+		acc := c13Accumulator(ex.Ret.Results[0])
+		if acc.bad != "" || len(acc.appends) == 0 {
+			okRet, retWhy = false, "a success exit returns something else: "+acc.bad
+		}
+		for _, a := range acc.appends {
+			if !isCerts(a.Call.Args[1]) {
+				okRet, retWhy = false, "the returned slice was appended from "+trunc(desc(a.Call.Args[1]), 200)
+			}
+		}
+		if !acc.grows(loop, isCerts) {
+			grows = false
 		}
 	}
-	c.Check(okRet, "exact-set/returns-accumulated", "success exits return exactly the accumulated slice (nothing cached or taken from elsewhere)", site, "a success exit returns something else")
-	// (c) failing exits return nil
+	c.Check(okRet, "exact-set/returns-accumulated", "success exits return exactly the accumulated slice (nothing cached or taken from elsewhere; it starts empty)", site, retWhy)
+	// non-empty result. Either the returned slice is tested, or — equivalent, because every completed iteration appends the
+	// certificates of its entry (grows), each entry has at least one (entry/at-least-one-certificate) and the loop cannot be
+	// bypassed (entry/loop) — the listing itself is tested to be non-empty.
+	nonEmpty := every(func(m map[string]string) bool {
+		for l := range m {
+			if strings.HasPrefix(l, "NE(len(") && strings.HasSuffix(l, "),const:0)") && (strings.Contains(l, "ReadCertificateFile") || strings.Contains(l, "append")) {
+				return true
+			}
+		}
+		return false
+	})
+	if !nonEmpty && okLen && grows && has("NE(len("+entriesD+"),const:0)") {
+		nonEmpty = true
+	}
+	c.slot(nonEmpty, 1, "gate/non-empty", "an empty result is an error", site, "an empty store loads successfully")
+	// (c) failing exits return nil — in every function of the chain (a caller may forward both results of the next function of the chain as they are)
 	okNil := true
 	bad := ""
-	for _, b := range G.Blocks {
-		r, ok := blockTerm(b).(*ssa.Return)
-		if !ok || len(r.Results) != 2 {
-			continue
+	for i, in := range chain {
+		hfi := w.Info(in.fn)
+		var next *ssa.Call
+		if i+1 < len(chain) {
+			next = chain[i+1].call
 		}
-		if cl, _, _, _ := fi.classify(r, state{b.Index, 0, -1}, m); cl == clFail && !isNilConst(r.Results[0]) {
+		for _, b := range in.fn.Blocks {
+			r, ok := blockTerm(b).(*ssa.Return)
+			if !ok || len(r.Results) != 2 {
+				continue
+			}
+			if cl, _, _, _ := hfi.classify(r, state{b.Index, 0, -1}, m); cl != clFail || isNilConst(r.Results[0]) {
+				continue
+			}
+			e0, ok0 := r.Results[0].(*ssa.Extract)
+			e1, ok1 := r.Results[1].(*ssa.Extract)
+			if next != nil && ok0 && ok1 && e0.Tuple == ssa.Value(next) && e1.Tuple == ssa.Value(next) && e0.Index == 0 {
+				continue
+			}
 			okNil = false
 			bad = w.InstrPos(r)
 		}
 	}
 	c.Check(okNil, "no-partial-set", "every failing exit returns a nil slice", site, "a failing exit returns certificates: "+bad)
 	c.MinCount("", 20, "trust store obligations")
-}
-
-// c13Scope: where one directory entry is processed — the body of the entries loop, or an unexported helper the loop hands
-// the entry to and whose success every completed iteration requires. The per-entry rules are the same in both; only the
-// frame in which values are written differs (loop: the loader's; helper: the helper's parameters).
-type c13Scope struct {
-	fn     *ssa.Function
-	fi     *FnInfo
-	loop   *loopRef // nil: the whole helper
-	labels map[string]string
-}
-
-// blocked: with the cut edges removed, the entry cannot be completed successfully.
-func (sc *c13Scope) blocked(cut map[edgeKey]bool) bool {
-	if sc.loop != nil {
-		return !sc.fi.reachHit([]state{{sc.loop.Body.Index, 0, -1}}, cut, map[int]bool{sc.loop.Header.Index: true})
-	}
-	return sc.fi.successWitness(Mode{Kind: mErr}, entryState(), cut) == nil
-}
-
-func (sc *c13Scope) contains(b *ssa.BasicBlock) bool {
-	if sc.loop != nil {
-		return loopBlocks(sc.loop.Header)[b.Index]
-	}
-	return true
-}
-
-func (sc *c13Scope) site(w *World) string {
-	if sc.loop != nil {
-		return w.InstrPos(blockTerm(sc.loop.Header))
-	}
-	return w.FnPos(sc.fn)
-}
-
-// c13CertLoop: on every completed entry iteration a loop over all elements of
-// certs is traversed whose own iterations complete only through the selected
-// gate. The loop may be in G or in a module function called with certs whose
-// success gates the iteration.
-func c13CertLoop(c *Ctx, sc *c13Scope, certs string, gate func(el string) EdgeSel, minEdges int) (bool, string) {
-	w := c.W
-	G, fi := sc.fn, sc.fi
-	// a per-certificate helper whose success requires the gate on its parameter
-	helperOK := func(g *ssa.Function) bool {
-		if g == nil || g.Blocks == nil || !w.IsProductFn(g) || len(g.Params) != 1 {
-			return false
-		}
-		ok, n, _ := exitsBlocked(w.Info(g), Mode{Kind: mErr}, gate("param:"+g.Params[0].Name()), nil)
-		return ok && n >= minEdges
-	}
-	check := func(fn *ssa.Function, xd string) (*loopRef, bool) {
-		ffi := w.Info(fn)
-		for _, l := range allLoops(fn) {
-			l := l
-			if desc(l.X) != xd {
-				continue
-			}
-			ok, n := iterBlocked(ffi, &l, Mode{Kind: mErr}, gate(xd+"["))
-			if ok && n >= minEdges {
-				return &l, true
-			}
-			// or: every completed iteration passes helper(element) err == nil
-			il, _ := ffi.mustPassBetween([]int{l.Body.Index}, map[int]bool{l.Header.Index: true})
-			for _, ci := range allCalls(fn) {
-				call, isCall := ci.(*ssa.Call)
-				if !isCall || len(call.Call.Args) != 1 || !strings.HasPrefix(desc(call.Call.Args[0]), xd+"[") {
-					continue
-				}
-				if labelHas(il, "EQ("+descTailErr(call)+",nil)") && helperOK(staticCallee(call)) {
-					return &l, true
-				}
-			}
-		}
-		return nil, false
-	}
-	// inline in G
-	if l, ok := check(G, certs); ok && sc.contains(l.Header) {
-		cut := map[edgeKey]bool{}
-		cutInto(fi, l.Header, cut)
-		if sc.blocked(cut) {
-			return true, w.InstrPos(blockTerm(l.Header))
-		}
-	}
-	// in a callee
-	for _, ci := range allCalls(G) {
-		call, ok := ci.(*ssa.Call)
-		if !ok {
-			continue
-		}
-		g := staticCallee(call)
-		if g == nil || !w.IsProductFn(g) || !isErrorType(call.Type()) {
-			continue
-		}
-		for i, a := range call.Call.Args {
-			if desc(a) != certs {
-				continue
-			}
-			l, ok := check(g, "param:"+g.Params[i].Name())
-			if !ok {
-				continue
-			}
-			// the callee's success requires traversing that loop, and the iteration requires the callee's success
-			gfi := w.Info(g)
-			cut := map[edgeKey]bool{}
-			cutInto(gfi, l.Header, cut)
-			if gfi.successWitness(Mode{Kind: mErr}, entryState(), cut) != nil {
-				continue
-			}
-			if labelHas(sc.labels, "EQ("+descTailErr(call)+",nil)") {
-				c.SeenFn(g.String())
-				return true, w.InstrPos(blockTerm(l.Header))
-			}
-		}
-	}
-	return false, sc.site(w)
 }
 
 // c13Root: the root check requires a self-signature and equal subject/issuer.
